@@ -11,6 +11,22 @@ CLAIMED = {
    text="For every resolution 0..30 one solver verdict per path covers all S of that resolution (up to 2^56 values), all 12 faces and 5 segments: id in [1,2^64), get_resolution(id)==r, deserialize(serialize(cell))==cell, equal ids => equal cells (same and different resolutions), S out of range always raises, get_num_cells(r) = 12*5*4^(r-1) with r symbolic. Bounded only by the type's own ranges; r=30 is a recorded known finding.",
    ref="DESIGN.md §4 C05",
    note="Trusted: CPython running the real functions on symx proxies, z3, the interval/known-bits guard that ties 72/136-bit vectors to Python ints. Assumes only the validity predicate face 0..11, segment 0..4, 0<=S<4^(r-1). Negative S / out-of-range face are outside the documented domain."),
+ "C06": dict(
+   text="Real cell_to_children/cell_to_parent/get_res0_cells executed on a symbolic cell (all S of the resolution, symbolic face and segment) for every r in -1..29: children count = 12/5/4 product, pairwise distinct, each at resolution b with parent c; completeness against an independent symbolic cell d and a decoded-field ancestor oracle; contiguity of descendants (r>=1); parent composition, uniqueness and resolution; out-of-order requests raise on every path; defaults mean +-1. One z3 verdict per obligation covers all ids of the level.",
+   ref="DESIGN.md §4 C06",
+   note="Fan-out bounded to 3 levels per call (<=960 ids per list; quick: 1 level plus the aperture jumps); deeper descents follow from the discharged composition obligation. origins table read through a symbolic ite view. Child resolution 30 excluded (C05 known finding)."),
+ "C08": dict(
+   text="Real compact() run on lists of symbolic ids (sorted/set/stride scan fork on solver-decided comparisons); for every feasible path z3 proves covered(X,z) <=> covered(compact(X),z) for an arbitrary symbolic finest-level cell z, with coverage defined on decoded fields (independent of is_first_child/get_stride/cell_to_parent). Shapes: all multisets of <=3 (thorough 4) free cells over resolutions -1..3 at arbitrary positions (duplicates, ancestors, any faces), complete sibling groups at every aperture (12/5/4) plus free cells, two-level groups.",
+   ref="DESIGN.md §4 C08",
+   note="Bounded list shapes (see evidence bounds); more than 4 free cells and free cells finer than res 6 are outside. `set` in a5.core.compact is shimmed so concrete and symbolic ids compare by value; origins via SymTable."),
+ "C09": dict(
+   text="Same symbolic runs of the real compact() restricted to antichain inputs (the property's precondition as a path assumption): output duplicate-free (Distinct), output antichain, no complete sibling group left (judged on decoded fields for all 12/5/4 apertures), compacting the output again changes nothing, result set independent of order/duplication for lists <=3. Found the res-0/res-1 sort-order defect (fixed in /repo 496f3b2).",
+   ref="DESIGN.md §4 C09",
+   note="Bounded list shapes as for C08; canonical = coverage (C08) + distinct + antichain + no complete group, a theorem of the hierarchy, stated as assumption."),
+ "C10": dict(
+   text="Real uncompact() on lists of <=3 symbolic cells (resolutions -1..29, target <= min+3): length equals the independent 12/5/4 product sum; each slice is distinct, at resolution t, maps back to its source cell through cell_to_parent and is complete against a symbolic descendant d with the decoded-field oracle; a cell finer than t raises on every path; the argument list is untouched and the result is a fresh list.",
+   ref="DESIGN.md §4 C10",
+   note="Lists of at most 3 cells, expansion <= 3 levels / 960 ids per cell; the function handles cells independently with one running offset, longer lists are outside the bound."),
 }
 NA = {}
 for p in props:
